@@ -102,6 +102,27 @@ pub fn run(ctx: &Ctx, st: &mut Stats) {
             st.sample(|| json!(c));
         }
     }
+    // counter-wrap probe: two consecutive schedules on this thread, separated by exactly 2^8-1 / 2^16-1 / 2^16
+    // single-day evaluations on ANOTHER thread (a wrapping id / generation counter shared by the process)
+    if ctx.shard % 4 == 1 || ctx.thorough {
+        for nsep in [255u32, 65_535, 65_536] {
+            let a = gen_case(&mut r);
+            let b = gen_case(&mut r);
+            check(ctx, st, &a);
+            std::thread::scope(|s| {
+                s.spawn(|| {
+                    let mut p = Params::new(Method::Mwl);
+                    p.extreme_latitude_method = ExtremeLatitudeMethod::None;
+                    let l = loc(10.0, 20.0, 0.0, 1.0);
+                    for k in 0..nsep {
+                        let _ = std::panic::catch_unwind(|| prayer_times_dt(&p, l, from_ce(730_000 + (k % 3000) as i32), None));
+                    }
+                });
+            });
+            check(ctx, st, &b);
+            st.count("counter_wrap_probes");
+        }
+    }
     // existence-boundary seeking: bisect the latitude down to adjacent f64 values across the transition where a
     // twilight time appears/disappears; both neighbours must still return a complete, ordered schedule
     let nb = ctx.quota(3_000, 120_000);
